@@ -1226,6 +1226,85 @@ def q_register_epoch(cfg):
             res.ob(ok, {'rule': 'Q-14', 'site': fileline(e.get('loc')), 'published_by': h, 'verdict': 'discharged' if ok else 'VIOLATION'})
             if not ok:
                 res.find(f, e.get('loc'), 'register_thread: %s: the new thread believes it is in an epoch in which it was not counted; its first quiescent state decrements a zero count of threads in the previous epoch (borrowing from the thread count) and starts a second, concurrent epoch change - reported thread counts are wrong and pending requests are not executed when they should be' % why, key='Q-14:register-epoch', config=cfg.name)
+        # Q-14b: which update does a registering thread publish, by the observed (threads in previous epoch, thread count)?
+        def cls_of(o, depth=0):
+            x = f.strip_casts(o)
+            while isinstance(x, dict) and x.get('k') == 'ref' and x.get('vk') == 'local' and x.get('did') in inits and depth < 4:
+                x = f.strip_casts(inits[x['did']])
+                depth += 1
+            if isinstance(x, dict) and x.get('k') == 'call' and x.get('name') in ('get_threads_in_previous_epoch', 'get_thread_count'):
+                return 'prev' if x['name'] == 'get_threads_in_previous_epoch' else 'count'
+            if isinstance(x, dict) and x.get('k') == 'int':
+                return int(x['v'])
+            return None
+
+        def ev(o, env):
+            """three-valued: True / False / None"""
+            x = f.strip_casts(o)
+            if not isinstance(x, dict):
+                return None
+            if x.get('k') == 'call' and x.get('name') == '__builtin_expect':
+                return ev(x['args'][0], env)
+            if x.get('k') == 'unop' and x.get('op') == '!':
+                v = ev(x['sub'], env)
+                return None if v is None else (not v)
+            if x.get('k') == 'binop' and x.get('op') in ('||', '&&'):
+                a, b2 = ev(x['l'], env), ev(x['r'], env)
+                if x['op'] == '||':
+                    return True if (a is True or b2 is True) else (False if (a is False and b2 is False) else None)
+                return False if (a is False or b2 is False) else (True if (a is True and b2 is True) else None)
+            if x.get('k') == 'binop' and x.get('op') in ('>', '<', '>=', '<=', '==', '!='):
+                l, r = cls_of(x['l']), cls_of(x['r'])
+                op = x['op']
+                if isinstance(l, int) and isinstance(r, str):
+                    l, r = r, l
+                    op = {'>': '<', '<': '>', '>=': '<=', '<=': '>=', '==': '==', '!=': '!='}[op]
+                if isinstance(l, str) and isinstance(r, int):
+                    # the class 'pos' stands for every value >= 1
+                    if env[l] == 0:
+                        return {'>': 0 > r, '<': 0 < r, '>=': 0 >= r, '<=': 0 <= r, '==': 0 == r, '!=': 0 != r}[op]
+                    if r == 0:
+                        return {'>': True, '<': False, '>=': True, '<=': False, '==': False, '!=': True}[op]
+                    if r == 1 and op in ('>=', '<'):
+                        return op == '>='
+                return None
+            return None
+        UPD = ('inc_thread_count_and_threads_in_previous_epoch', 'inc_thread_count')
+        for env, want in (({'prev': 'pos', 'count': 'pos'}, UPD[0]), ({'prev': 0, 'count': 0}, UPD[0]), ({'prev': 0, 'count': 'pos'}, UPD[1])):
+            reached = set()
+            unknown = []
+            seen = set()
+            work = [f.entry]
+            while work:
+                b = work.pop()
+                if b in seen or b is None:
+                    continue
+                seen.add(b)
+                hit = [e for e in f.blocks[b]['elems'] if e.get('k') == 'call' and e.get('name') in UPD]
+                if hit:
+                    reached.add(hit[0]['name'])
+                    continue
+                ss = f.succs(b)
+                blk = f.blocks[b]
+                if len(ss) == 2 and blk.get('cond') is not None:
+                    v = ev(blk['cond'], env)
+                    if v is None:
+                        unknown.append(fileline(blk.get('termloc') or f.loc))
+                        work.extend(ss)
+                    else:
+                        work.append(ss[0] if v else ss[1])
+                else:
+                    work.extend(ss)
+            if len(reached) > 1 and unknown:
+                res.incompl('Q-14b: the update chosen by register_thread for (threads in previous epoch %s, thread count %s) depends on a condition the case walk cannot evaluate (%s)' % (env['prev'], env['count'], unknown[0]))
+                continue
+            ok = reached == {want}
+            res.ob(ok, {'rule': 'Q-14b', 'case': 'threads in previous epoch %s, thread count %s' % (env['prev'], env['count']), 'publishes': sorted(reached), 'required': want, 'verdict': 'discharged' if ok else 'VIOLATION'})
+            n2 = 1
+            if not ok:
+                res.find(f, f.loc, 'register_thread: with %s threads in the previous epoch and thread count %s observed, the state update published is %s instead of %s - %s' % (
+                    env['prev'], env['count'], sorted(reached) or 'none', want,
+                    'a thread arriving while an epoch change is in progress (count of the previous epoch already 0) is counted into the old epoch: it keeps the old epoch, its first quiescent state starts a second, concurrent epoch change and requests are freed one epoch early' if want == UPD[1] else 'the thread is not counted in the epoch it is given, the count underflows when it passes its first quiescent state'), key='Q-14b:register-update', config=cfg.name)
     res.count('returns of register_thread', n)
     res.floor('returns of register_thread', 2)
     return res
@@ -1316,4 +1395,74 @@ def q_sink(cfg):
     else:
         res.incompl('Q-16: constructor / qsbr_resume of qsbr_per_thread not found')
     res.floor('sink functions', 2)
+    return res
+
+
+def q_wrap(cfg):
+    """Q-17: an event counter that doubles as a flag cannot wrap in reachable time"""
+    res = RuleResult('Q-17', 'a per-thread counter that is incremented once per API event without bound and whose comparison with zero decides a state change (quiescent_states_since_epoch_change: "has this thread already left the previous epoch?") is at least 64 bits wide, and so is every parameter it is handed on through - a 32-bit counter wraps to 0 after 2^32 quiescent states within one epoch (minutes of a tight loop) and the thread leaves the previous epoch a second time, on behalf of a thread that has not quiesced: the epoch advances under a reader')
+    n = 0
+    PT = 'unodb::qsbr_per_thread'
+    rec = cfg.records.get(PT)
+    if rec is None:
+        res.incompl('Q-17: record %s not found' % PT)
+        return res
+    fields = {fl['did']: fl for fl in rec.get('fields', []) if fl.get('w') and fl.get('w') > 1}
+    inc, tested, handed = set(), {}, {}
+    for f in cfg.functions:
+        if not f.blocks or f.basefile not in ('qsbr.hpp', 'qsbr.cpp'):
+            continue
+
+        def fld(o):
+            x = f.strip_casts(o)
+            if isinstance(x, dict) and x.get('k') == 'member' and x.get('did') in fields:
+                return x['did']
+            return None
+        for b, i, e in f.elements():
+            if is_assert_elem(e):
+                continue
+            if e.get('k') == 'unop' and e.get('op') == '++' and fld(e.get('sub')) is not None:
+                inc.add(fld(e['sub']))
+            elif e.get('k') in ('binop', 'compound') and e.get('op') in ('+=',) and fld(e.get('l')) is not None:
+                inc.add(fld(e['l']))
+            elif e.get('k') == 'binop' and e.get('op') in ('==', '!=', '>', '<'):
+                for a, z in ((e['l'], e['r']), (e['r'], e['l'])):
+                    zz = f.strip_casts(z)
+                    if fld(a) is not None and isinstance(zz, dict) and zz.get('k') == 'int' and zz.get('v') == '0':
+                        tested.setdefault(fld(a), []).append(fileline(e.get('loc')))
+            elif e.get('k') == 'call' and e.get('cid') is not None:
+                for ai, a in enumerate(e.get('args', [])):
+                    d = fld(a)
+                    if d is None:
+                        continue
+                    tg = cfg.fn_of(f.tu, e['cid'])
+                    if tg is None or not tg.blocks or ai >= len(tg.params):
+                        continue
+                    p = tg.params[ai]
+                    # is the parameter compared with zero in the callee?
+                    for b2, i2, e2 in tg.elements():
+                        if e2.get('k') == 'binop' and e2.get('op') in ('==', '!=', '>', '<') and not is_assert_elem(e2):
+                            for a2, z2 in ((e2['l'], e2['r']), (e2['r'], e2['l'])):
+                                r2 = tg.ref_of(a2)
+                                zz = tg.strip_casts(z2)
+                                if r2 and r2[0] == p['did'] and isinstance(zz, dict) and zz.get('k') == 'int' and zz.get('v') == '0':
+                                    handed.setdefault(d, []).append((tg, p, fileline(e2.get('loc'))))
+    for d in sorted(inc):
+        if d not in tested and d not in handed:
+            continue
+        fl = fields[d]
+        n += 1
+        ok = fl['w'] >= 64
+        res.ob(ok, {'rule': 'Q-17', 'field': fl['name'], 'width': fl['w'], 'zero_tests': (tested.get(d, []) + [x[2] for x in handed.get(d, [])])[:4], 'verdict': 'discharged' if ok else 'VIOLATION'})
+        if not ok:
+            res.find('unodb::qsbr_per_thread', rec.get('loc'), 'qsbr_per_thread::%s is %d bits wide, is incremented once per quiescent state without bound and its comparison with zero (%s) decides whether the thread still has to leave the previous epoch: after 2^%d quiescent states within one epoch it wraps to 0 and the thread leaves the previous epoch a second time, taking the place of a thread that has not quiesced - the epoch advances and requests are freed under a live reader' % (fl['name'], fl['w'], (tested.get(d) or [x[2] for x in handed[d]])[0], fl['w']), key='Q-17:%s' % fl['name'], config=cfg.name)
+        for tg, p, where in handed.get(d, []):
+            pw = p.get('w')
+            ok2 = pw is None or pw >= fl['w']
+            n += 1
+            res.ob(ok2, {'rule': 'Q-17', 'field': fl['name'], 'handed_to': sh(tg.sig)[:80], 'param_width': pw, 'verdict': 'discharged' if ok2 else 'VIOLATION'})
+            if not ok2:
+                res.find(tg, tg.loc, '%s receives qsbr_per_thread::%s (%d bits) in a %s-bit parameter and compares it with zero (%s): the truncated value is 0 for a thread that has passed a multiple of 2^%s quiescent states, which then leaves the previous epoch twice' % (tg.short, fl['name'], fl['w'], pw, where, pw), key='Q-17:%s:param' % fl['name'], config=cfg.name)
+    res.count('counters doubling as flags', n)
+    res.floor('counters doubling as flags', 2)
     return res
